@@ -377,6 +377,47 @@ def dead_load_corpus():
     return out
 
 
+def cross_region_corpus():
+    """a value loaded from one region (kept in that region's order by a later store to the same place) that an operation of the other
+    region stores, with independent stores before and after it in both regions: the two orders have to be merged around the load"""
+    out = []
+    for pre in ("PUSH1 0x5 PUSH1 0x1 SSTORE", "CALLER PUSH1 0x1 SSTORE", "PUSH1 0x5 PUSH1 0x1 SSTORE PUSH1 0x6 PUSH1 0x3 SSTORE", ""):
+        for post in ("PUSH1 0x0 MSTORE", "PUSH1 0x0 MSTORE8", "PUSH1 0x0 MSTORE PUSH1 0x9 PUSH1 0x4 SSTORE", "PUSH1 0x8 PUSH1 0x60 MSTORE PUSH1 0x0 MSTORE"):
+            out.append(("%s PUSH1 0x2 SLOAD PUSH1 0x7 PUSH1 0x2 SSTORE %s" % (pre, post)).strip())
+    for pre in ("PUSH1 0x5 PUSH1 0x20 MSTORE", "CALLER PUSH1 0x20 MSTORE", "PUSH1 0x5 PUSH1 0x20 MSTORE PUSH1 0x6 PUSH1 0x80 MSTORE8", ""):
+        for post in ("PUSH1 0x0 SSTORE", "PUSH1 0x0 SSTORE PUSH1 0x9 PUSH1 0xa0 MSTORE", "PUSH1 0x8 PUSH1 0x3 SSTORE PUSH1 0x0 SSTORE"):
+            out.append(("%s PUSH1 0x40 MLOAD PUSH1 0x7 PUSH1 0x40 MSTORE %s" % (pre, post)).strip())
+            out.append(("%s PUSH1 0x20 PUSH1 0x40 KECCAK256 PUSH1 0x7 PUSH1 0x40 MSTORE %s" % (pre, post)).strip())
+    return out
+
+
+def overwritten_store_corpus():
+    """a store, a reader of (part of) what it wrote, and a second store to the same place: the first store is redundant only when nothing in
+    between reads it.  Readers: word loads at every offset around the stored byte/word, hashes whose range ends just before / inside / after
+    it, loads of the same and of another key; constant and symbolic addresses"""
+    out = []
+    for st in ("MSTORE", "MSTORE8"):
+        for a in (0x3f, 0x40):
+            for b in sorted({a - 32, a - 31, a - 1, a, a + 1, a + 31, a + 32}):
+                if b >= 0:
+                    out.append("PUSH1 0xaa PUSH1 0x%x %s PUSH1 0x%x MLOAD PUSH1 0xbb PUSH1 0x%x %s" % (a, st, b, a, st))
+            for off, ln in ((a - 8, 8), (a - 8, 9), (a, 1), (a + 1, 4), (0, a), (0, a + 1)):
+                if off >= 0:
+                    out.append("PUSH1 0xaa PUSH1 0x%x %s PUSH1 0x%x PUSH1 0x%x KECCAK256 PUSH1 0xbb PUSH1 0x%x %s" % (a, st, ln, off, a, st))
+        # symbolic address: the same word, the next byte, another word
+        out.append("PUSH1 0xaa DUP2 %s DUP1 MLOAD PUSH1 0xbb DUP3 %s" % (st, st))
+        out.append("PUSH1 0xaa DUP2 %s DUP1 PUSH1 0x1 ADD MLOAD PUSH1 0xbb DUP3 %s" % (st, st))
+        out.append("PUSH1 0xaa DUP2 %s DUP2 MLOAD PUSH1 0xbb DUP3 %s" % (st, st))
+        # the other store kind in between
+        other = "MSTORE8" if st == "MSTORE" else "MSTORE"
+        out.append("PUSH1 0xaa PUSH1 0x40 %s PUSH1 0xcc PUSH1 0x41 %s PUSH1 0xbb PUSH1 0x40 %s" % (st, other, st))
+    for k2 in (0x2, 0x3):
+        out.append("PUSH1 0xaa PUSH1 0x2 SSTORE PUSH1 0x%x SLOAD PUSH1 0xbb PUSH1 0x2 SSTORE" % k2)
+    out.append("PUSH1 0xaa DUP2 SSTORE DUP1 SLOAD PUSH1 0xbb DUP3 SSTORE")
+    out.append("PUSH1 0xaa DUP2 SSTORE DUP2 SLOAD PUSH1 0xbb DUP3 SSTORE")
+    return out
+
+
 def hash_pair_corpus():
     """two reads of memory (hash/hash, hash/load, load/load) with equal and different offsets and lengths, constant and symbolic, with
     and without a store in between: reads may be unified only when they read the same bytes of the same memory"""
